@@ -46,6 +46,27 @@ int main(void){ int i,j; of_rs_init();
     return hdr
 
 
+def gf28_rowptr_header():
+    """Variant of the generated codec-1 table header for C13's ROWTAB abstraction: the
+    multiplication table is replaced by an array of row pointers which the harness fills."""
+    real = gf28_tables_header()
+    out = os.path.join(os.path.dirname(real), "gf28_rowptr.h")
+    if not os.path.exists(out):
+        with open(real) as f, open(out, "w") as g:
+            skipping = False
+            for line in f:
+                if line.startswith("static const gf of_gf_mul_table"):
+                    g.write("static gf *of_gf_mul_table[GF_SIZE+1];   /* row pointers, filled by harness/kernels.c (ROWTAB) */\n")
+                    skipping = not line.rstrip().endswith("};")
+                    continue
+                if skipping:
+                    if line.rstrip().endswith("};"):
+                        skipping = False
+                    continue
+                g.write(line)
+    return out
+
+
 def lib_cfg(codec):
     """(lib_defs, remove, lib_exclude, extra cbmc flags) for a codec-level query."""
     if codec == RS28:
